@@ -11,7 +11,7 @@ where
     const LINE_FEED: u8 = b'\n';
     const CARRIAGE_RETURN: u8 = b'\r';
 
-    let mut n = 0;
+    let start = buf.len();
 
     loop {
         let src = reader.fill_buf().await?;
@@ -38,11 +38,9 @@ where
         };
 
         reader.consume(len);
-
-        n += len;
     }
 
-    Ok(n)
+    Ok(buf.len() - start)
 }
 
 #[cfg(test)]
